@@ -398,9 +398,33 @@ class Interp:
                         for bb, e2, ts2 in outs:
                             work.append((bb, e2, ts2))
                     else:
+                        # an unknown integer / bool local that is branched on: on each edge it has the value of that edge
+                        # (also the local it was copied from in this block: `_t = copy _flag; switchInt(move _t)`)
+                        refine = []
+                        dl = mirq.op_local(t["discr"])
+                        if dl is not None and d is TOP:
+                            refine.append("_%d" % dl)
+                            for st in reversed(b["stmts"]):
+                                if st["k"] == "Assign" and not st["place"]["p"] and st["place"]["l"] == dl:
+                                    if st["rv"]["k"] == "Use":
+                                        src = mirq.op_place(st["rv"]["op"])
+                                        if src and not src["p"] and "copy" in st["rv"]["op"]:
+                                            refine.append("_%d" % src["l"])
+                                    break
+                        taken = set()
                         for v, bb in t["targets"]:
-                            work.append((bb, dict(env), ts))
-                        work.append((t["otherwise"], dict(env), ts))
+                            e2 = dict(env)
+                            for rk in refine:
+                                if rk not in self.untracked:
+                                    e2[rk] = const(v)
+                            taken.add(v)
+                            work.append((bb, e2, ts))
+                        e2 = dict(env)
+                        if t.get("dty") == "bool" and taken == {0}:
+                            for rk in refine:
+                                if rk not in self.untracked:
+                                    e2[rk] = const(1)
+                        work.append((t["otherwise"], e2, ts))
             elif k == "Call":
                 h = self.hooks.get("on_call")
                 outs = h(self, env, ts, bi, t) if h else None
